@@ -1766,4 +1766,293 @@ theorem nest_spells (ext : Bool) (ws : List Wrap) (hws : ∀ w ∈ ws, w.Ok ext)
       have hv1 := roundtrip_val ext val (ws.length + k) r hw.1 (by have := hw.2; omega)
       simp only [pairsWith, ih' (encode val ++ r), hv1]
 
+
+/-! ## Framing and the first byte -/
+
+theorem encodeList_eq_flatMap (xs : List MVal) : encodeList xs = xs.flatMap encode := by
+  induction xs with
+  | nil => rfl
+  | cons x xs ih => simp [encodeList, ih]
+
+theorem encode_ne_nil (v : MVal) : encode v ≠ [] := by
+  cases v <;> simp only [encode, encUint, encNint, strHdr, binHdr, arrHdr, mapHdr, extHdr] <;>
+    (repeat' split) <;> simp
+
+/-- Reading back a concatenation of encoded documents gives exactly the
+documents (the encoding is self-delimiting). -/
+theorem frame_recover (ext : Bool) (d : Nat) (docs : List MVal)
+    (hwf : ∀ v ∈ docs, v.WF ext) (hn : ∀ v ∈ docs, v.nesting < d) :
+    readerLoop ext d (docs.flatMap encode) = (docs, .ok) := by
+  induction docs with
+  | nil => simp [readerLoop_nil]
+  | cons x xs ih =>
+    have h1 := roundtrip_val ext x d (xs.flatMap encode) (hwf x (by simp)) (hn x (by simp))
+    have e : (x :: xs).flatMap encode = encode x ++ xs.flatMap encode := by simp
+    rw [e, readerLoop_ok ext d h1,
+      ih (fun v hv => hwf v (by simp [hv])) (fun v hv => hn v (by simp [hv]))]
+
+/-- The first byte of an encoded array or map is a collection marker. -/
+theorem encode_arr_first (xs : List MVal) :
+    ∃ b t, encode (.arr xs) = b :: t ∧
+      (Marker.ofByte b = .fixArray xs.length ∨ Marker.ofByte b = .array16 ∨
+       Marker.ofByte b = .array32) := by
+  simp only [encode, arrHdr]
+  split
+  · rename_i h1
+    exact ⟨0x90 + xs.length, encodeList xs, rfl, Or.inl (ofByte_fixArray h1)⟩
+  · split
+    · exact ⟨0xdc, _, rfl, Or.inr (Or.inl (by simp [Marker.ofByte]))⟩
+    · exact ⟨0xdd, _, rfl, Or.inr (Or.inr (by simp [Marker.ofByte]))⟩
+
+theorem encode_map_first (kvs : List (MVal × MVal)) :
+    ∃ b t, encode (.map kvs) = b :: t ∧
+      (Marker.ofByte b = .fixMap kvs.length ∨ Marker.ofByte b = .map16 ∨
+       Marker.ofByte b = .map32) := by
+  simp only [encode, mapHdr]
+  split
+  · rename_i h1
+    exact ⟨0x80 + kvs.length, encodePairs kvs, rfl, Or.inl (ofByte_fixMap h1)⟩
+  · split
+    · exact ⟨0xde, _, rfl, Or.inr (Or.inl (by simp [Marker.ofByte]))⟩
+    · exact ⟨0xdf, _, rfl, Or.inr (Or.inr (by simp [Marker.ofByte]))⟩
+
+
+
+/-! ## Recursion depth of the calculator
+
+An instrumented copy of the three functions: the second component is the
+deepest nesting of `next_value_size` frames reached (counting the frame
+itself).  The first component is proved equal to the model's result, the
+second is proved to be at most `depth_limit + 1`. -/
+
+def finishI (input : List Nat) (totalSize : Nat) : Res :=
+  if totalSize ≤ input.length then .ok totalSize else .truncated
+
+def thenFinish (input : List Nat) (k : Nat) : Res → Res
+  | .ok n => finishI input (k + n)
+  | e => e
+
+mutual
+def nextValueSizeI (input : List Nat) (d : Nat) : Res × Nat :=
+  if d = 0 then (.depthExceeded, 1)
+  else
+    match input with
+    | [] => (.ok 0, 1)
+    | b :: _ =>
+      match classify (Marker.ofByte b) with
+      | .reserved => (.invalidMarker, 1)
+      | .fixed size => (finishI input size, 1)
+      | .fixStr n => (finishI input (1 + n), 1)
+      | .lenPrefixed w base => (thenFinish input base (tryReadLength input w), 1)
+      | .fixArray count =>
+        match sliceFrom input 1 (.inputSlice 1) with
+        | .error s => (.panic s, 1)
+        | .ok tail =>
+          let r := totalSeqSizeI tail count d
+          (thenFinish input 1 r.1, 1 + r.2)
+      | .fixMap pairs =>
+        match sliceFrom input 1 (.inputSlice 1) with
+        | .error s => (.panic s, 1)
+        | .ok tail =>
+          let r := totalMapSizeI tail pairs d
+          (thenFinish input 1 r.1, 1 + r.2)
+      | .array w =>
+        match tryReadLength input w with
+        | .ok count =>
+          match sliceFrom input (1 + w) (.inputSlice (1 + w)) with
+          | .error s => (.panic s, 1)
+          | .ok tail =>
+            let r := totalSeqSizeI tail count d
+            (thenFinish input (1 + w) r.1, 1 + r.2)
+        | e => (e, 1)
+      | .map w =>
+        match tryReadLength input w with
+        | .ok pairs =>
+          match sliceFrom input (1 + w) (.inputSlice (1 + w)) with
+          | .error s => (.panic s, 1)
+          | .ok tail =>
+            let r := totalMapSizeI tail pairs d
+            (thenFinish input (1 + w) r.1, 1 + r.2)
+        | e => (e, 1)
+termination_by (d, 3, 0)
+
+def totalMapSizeI (input : List Nat) (pairs d : Nat) : Res × Nat :=
+  let r1 := totalSeqSizeI input pairs d
+  match r1.1 with
+  | .ok first =>
+    match sliceFrom input first .mapSlice with
+    | .error s => (.panic s, r1.2)
+    | .ok tail =>
+      let r2 := totalSeqSizeI tail pairs d
+      (match r2.1 with
+        | .ok second => .ok (first + second)
+        | e => e, max r1.2 r2.2)
+  | e => (e, r1.2)
+termination_by (d, 2, 0)
+
+def totalSeqSizeI (input : List Nat) (count d : Nat) : Res × Nat :=
+  totalSeqLoopI input count 0 d
+termination_by (d, 1, 0)
+
+def totalSeqLoopI (seq : List Nat) (count total d : Nat) : Res × Nat :=
+  match count with
+  | 0 => (.ok total, 0)
+  | count + 1 =>
+    if seq.isEmpty then (.truncated, 0)
+    else if _h : d = 0 then (.panic .depthSub, 0)
+    else
+      let r := nextValueSizeI seq (d - 1)
+      match r.1 with
+      | .ok size =>
+        if size ≤ seq.length then
+          let r2 := totalSeqLoopI (seq.drop size) count (total + size) d
+          (r2.1, max r.2 r2.2)
+        else (.panic .seqSlice, r.2)
+      | e => (e, r.2)
+termination_by (d, 0, count)
+decreasing_by
+  all_goals simp_wf
+  all_goals first
+    | (apply Prod.Lex.left; omega)
+    | (apply Prod.Lex.right; apply Prod.Lex.left; omega)
+    | (apply Prod.Lex.right; apply Prod.Lex.right; omega)
+    | skip
+end
+
+def InstrAt (d : Nat) : Prop :=
+  ∀ input, (nextValueSizeI input d).1 = nextValueSize input d ∧ (nextValueSizeI input d).2 ≤ d + 1
+
+theorem loopI_ok (d : Nat) (hd : d ≠ 0) (ih : InstrAt (d - 1)) :
+    ∀ count seq total, (totalSeqLoopI seq count total d).1 = totalSeqLoop seq count total d ∧
+      (totalSeqLoopI seq count total d).2 ≤ d := by
+  intro count
+  induction count with
+  | zero =>
+    intro seq total
+    rw [totalSeqLoopI.eq_def, totalSeqLoop.eq_def]; simp
+  | succ c ihc =>
+    intro seq total
+    rw [totalSeqLoopI.eq_def, totalSeqLoop.eq_def]
+    simp only
+    by_cases he : seq.isEmpty
+    · simp [he]
+    · simp only [he, hd, Bool.false_eq_true, ↓reduceIte, ↓reduceDIte]
+      obtain ⟨e1, e2⟩ := ih seq
+      rw [← e1]
+      have e2' : (nextValueSizeI seq (d - 1)).2 ≤ d := by omega
+      cases hr : (nextValueSizeI seq (d - 1)).1 with
+      | ok size =>
+        simp only
+        by_cases hs : size ≤ seq.length
+        · obtain ⟨i1, i2⟩ := ihc (seq.drop size) (total + size)
+          simp only [hs, ↓reduceIte, i1]
+          exact ⟨trivial, by omega⟩
+        · simp only [hs, ↓reduceIte]; exact ⟨trivial, e2'⟩
+      | truncated => exact ⟨rfl, e2'⟩
+      | invalidMarker => exact ⟨rfl, e2'⟩
+      | depthExceeded => exact ⟨rfl, e2'⟩
+      | panic s => exact ⟨rfl, e2'⟩
+
+theorem seqI_ok (d : Nat) (hd : d ≠ 0) (ih : InstrAt (d - 1)) (input : List Nat) (count : Nat) :
+    (totalSeqSizeI input count d).1 = totalSeqSize input count d ∧
+      (totalSeqSizeI input count d).2 ≤ d := by
+  rw [totalSeqSizeI.eq_def, totalSeqSize.eq_def]
+  exact loopI_ok d hd ih count input 0
+
+theorem mapI_ok (d : Nat) (hd : d ≠ 0) (ih : InstrAt (d - 1)) (input : List Nat) (pairs : Nat) :
+    (totalMapSizeI input pairs d).1 = totalMapSize input pairs d ∧
+      (totalMapSizeI input pairs d).2 ≤ d := by
+  rw [totalMapSizeI.eq_def, totalMapSize.eq_def]
+  obtain ⟨e1, e2⟩ := seqI_ok d hd ih input pairs
+  simp only
+  rw [← e1]
+  cases h1 : (totalSeqSizeI input pairs d).1 with
+  | ok first =>
+    simp only
+    cases hsl : sliceFrom input first .mapSlice with
+    | error s => exact ⟨rfl, e2⟩
+    | ok tail =>
+      obtain ⟨f1, f2⟩ := seqI_ok d hd ih tail pairs
+      simp only
+      rw [← f1]
+      exact ⟨rfl, by omega⟩
+  | truncated => exact ⟨rfl, e2⟩
+  | invalidMarker => exact ⟨rfl, e2⟩
+  | depthExceeded => exact ⟨rfl, e2⟩
+  | panic s => exact ⟨rfl, e2⟩
+
+theorem thenFinish_eq (input : List Nat) (k : Nat) (r : Res) :
+    thenFinish input k r =
+      match r with
+      | .ok n => if k + n ≤ input.length then .ok (k + n) else .truncated
+      | e => e := by
+  cases r <;> rfl
+
+theorem instrAt (d : Nat) : InstrAt d := by
+  induction d with
+  | zero => intro input; rw [nextValueSizeI.eq_def, nextValueSize.eq_def]; simp
+  | succ d ih =>
+    intro input
+    have hd : d + 1 ≠ 0 := by omega
+    have ih' : InstrAt (d + 1 - 1) := by simpa using ih
+    rw [nextValueSizeI.eq_def, nextValueSize.eq_def]
+    simp only [hd, ↓reduceIte]
+    cases input with
+    | nil => simp
+    | cons b t =>
+      simp only
+      cases hc : classify (Marker.ofByte b) with
+      | reserved => simp
+      | fixed size => simp [finishI]
+      | fixStr n => simp [finishI]
+      | lenPrefixed w base =>
+        simp only [thenFinish_eq]
+        exact ⟨by cases tryReadLength (b :: t) w <;> rfl, by omega⟩
+      | fixArray count =>
+        simp only
+        cases hsl : sliceFrom (b :: t) 1 (.inputSlice 1) with
+        | error s => simp
+        | ok tail =>
+          obtain ⟨e1, e2⟩ := seqI_ok (d + 1) hd ih' tail count
+          simp only [thenFinish_eq, e1]
+          exact ⟨by cases totalSeqSize tail count (d + 1) <;> rfl, by omega⟩
+      | fixMap pairs =>
+        simp only
+        cases hsl : sliceFrom (b :: t) 1 (.inputSlice 1) with
+        | error s => simp
+        | ok tail =>
+          obtain ⟨e1, e2⟩ := mapI_ok (d + 1) hd ih' tail pairs
+          simp only [thenFinish_eq, e1]
+          exact ⟨by cases totalMapSize tail pairs (d + 1) <;> rfl, by omega⟩
+      | array w =>
+        simp only
+        cases hl : tryReadLength (b :: t) w with
+        | ok count =>
+          simp only
+          cases hsl : sliceFrom (b :: t) (1 + w) (.inputSlice (1 + w)) with
+          | error s => simp
+          | ok tail =>
+            obtain ⟨e1, e2⟩ := seqI_ok (d + 1) hd ih' tail count
+            simp only [thenFinish_eq, e1]
+            exact ⟨by cases totalSeqSize tail count (d + 1) <;> rfl, by omega⟩
+        | truncated => simp
+        | invalidMarker => simp
+        | depthExceeded => simp
+        | panic s => simp
+      | map w =>
+        simp only
+        cases hl : tryReadLength (b :: t) w with
+        | ok count =>
+          simp only
+          cases hsl : sliceFrom (b :: t) (1 + w) (.inputSlice (1 + w)) with
+          | error s => simp
+          | ok tail =>
+            obtain ⟨e1, e2⟩ := mapI_ok (d + 1) hd ih' tail count
+            simp only [thenFinish_eq, e1]
+            exact ⟨by cases totalMapSize tail count (d + 1) <;> rfl, by omega⟩
+        | truncated => simp
+        | invalidMarker => simp
+        | depthExceeded => simp
+        | panic s => simp
+
 end Xt.Msgpack
